@@ -13,16 +13,23 @@ import OpusProofs.DtxDecodeSkel
   `nb_eq`, `max_eq` of OpusProofs/Dtx.lean fail, and with them every bound below).
   Times are in the code's unit, Q1 milliseconds (half ms): 200 ms = 400, 400 ms = 800; a packet of
   `q` 2.5-ms units lasts `5*q`.  Everything the DSP decides (digital silence, `analysis_info.valid`,
-  the detector's decision, the mode, SILK's VAD outcome per frame) is an oracle: the theorems hold for
-  ALL oracle values, subject only to the shape contract `oracleOk` where stated (monitored on every call
-  of the correspondence run).
+  the detector's decision per coded frame, the per-frame `analysis_info.valid`, the mode, SILK's VAD
+  outcome per frame) is an oracle: the theorems hold for ALL oracle values, subject only to the shape
+  contract `oracleOk` (= `shapeOk`: how many `silk_Encode` calls / SILK frames a coded frame has; true by
+  construction and monitored on every call of the correspondence run) where stated.  In particular the
+  per-frame analysis results of a multi-frame packet need not agree with the call-level one.
 
   Vocabulary: `GenCall c o` — the generalised detector is in charge of call `o`
   (`silk_mode.useDTX = 0`, src/opus_encoder.c:1388); `SilkCall c o` — SILK's own DTX is
   (`silk_mode.useDTX = 1`); `AllDtx l` — every packet of `l` is a DTX packet; `Regular c` — the call
   reaches the frame loop (`frame_size ≠ 0` and the budget is above the code's low-budget class, :1267).
 
-  History: the run bound across a change of the detector in charge was FALSE of the code before the
+  History (2): before the repair at src/opus_encoder.c:2432 each coded frame of a multi-frame packet took
+  its DTX decision from its own `analysis_info->valid` while the detector in charge had been chosen from
+  the call-level one; with one NaN sample per 60 ms packet frames were dropped alternately by SILK and by
+  `decide_dtx_mode` and a run lasted 8.76 s (witness-search scenario `nan-pattern`).  The frame tail now
+  follows the call-level choice, and no theorem below needs a coherence assumption.
+  History (1): the run bound across a change of the detector in charge was FALSE of the code before the
   repair at src/opus_encoder.c:1388-1399 (two independent run counters, `silk_mode.useDTX` re-decided per
   call: 40 consecutive 20-ms DTX packets on 16 kHz stereo with faint anti-phase noise between two
   stretches of digital silence — witness-search scenario `regime-switch` of tools/props/C20.py keeps
@@ -189,6 +196,14 @@ example : pkts Ex.cfg (initSt 1) (List.replicate 10 Ex.silent ++ List.replicate 
       List.replicate 20 Pkt.normal ++ List.replicate 10 (Pkt.dtx 1) ++ List.replicate 10 Pkt.normal ++
         List.replicate 11 (Pkt.dtx 1) := by decide
 
+/- Per-frame analysis results that disagree with the call-level one (hybrid 60 ms packets, call-level and
+   second coded frame invalid, first and third valid and inactive: one NaN sample per packet): SILK's DTX
+   is in charge of every frame of the call, runs of six DTX packets (360 ms) with a refresh in between.
+   Before the repair at src/opus_encoder.c:2432 the refresh frames were dropped by `decide_dtx_mode`. -/
+example : oracleOk Ex.cfgHyb Ex.nanPkt = true ∧ pkts Ex.cfgHyb (initSt 1) (List.replicate 25 Ex.nanPkt) =
+    List.replicate 4 Pkt.normal ++ List.replicate 6 (Pkt.dtx 2) ++ [Pkt.normal] ++ List.replicate 6 (Pkt.dtx 2) ++ [Pkt.normal] ++
+      List.replicate 6 (Pkt.dtx 2) ++ [Pkt.normal] := by decide
+
 /-- Clause "the first frame of renewed activity is coded normally" — generalised detector.  On a
     regular call with a valid analysis and non-silent input, if the detector judges some coded frame
     of the packet active, the packet is a normal one (whatever the counters were), provided no coded
@@ -205,13 +220,15 @@ theorem dtx_resume_counter (useDtx : Bool) (mode : Mode) (fQ1 : Nat) (tc : Bool)
     (frameStep useDtx false mode fQ1 tc st o).2.1 = false ∧ (frameStep useDtx false mode fQ1 tc st o).1.nb = 0 :=
   frameStep_active useDtx mode fQ1 tc st o hs hv hd
 
-/-- Clause "the first frame of renewed activity is coded normally" — SILK's own DTX in charge: if
-    SILK's VAD marks some frame of the mid channel active in some coded frame of the call, the call
-    does not return a DTX packet. -/
-theorem dtx_resume_silk (c : Cfg) (st : St) (o : CallOr) (hok : oracleOk c o = true) (hsk : SilkCall c o)
-    (hact : ∃ s ∈ o.subs, ∃ m, s.silk.getLast? = some m ∧ ∃ f ∈ m.frames, f.low0 = false) (n : Nat) :
+/-- Clause "the first frame of renewed activity is coded normally" — SILK's own DTX in charge, for ALL
+    oracle values: if, in some coded frame of the call for which Opus did not force "no activity" (its
+    analysis result is not valid, or the detector judged it active), SILK's VAD marks a frame of the mid
+    channel active, the call does not return a DTX packet. -/
+theorem dtx_resume_silk (c : Cfg) (st : St) (o : CallOr) (hsk : SilkCall c o)
+    (hact : ∃ s ∈ o.subs, (s.valid = true → s.det = true) ∧
+      ∃ m, s.silk.getLast? = some m ∧ ∃ f ∈ m.frames, f.low0 = false) (n : Nat) :
     (encodeCall c st o).2.1 ≠ Pkt.dtx n :=
-  encodeCall_silk_active c st o hok hsk hact n
+  encodeCall_silk_active c st o hsk hact n
 
 /- after 600 ms of silence (in the middle of a DTX run) speech is coded normally at once, under either detector -/
 example : pkts Ex.cfg (initSt 1) (List.replicate 15 Ex.silent ++ [Ex.speech]) =
